@@ -41,6 +41,8 @@ class Oracle:
         self.delivered = collections.defaultdict(bytearray)
         self.ends = collections.Counter()
         self.violations = []          # (kind, text)
+        self.last_sent = {}           # endpoint name -> virtual time of its last datagram
+        self.terminations = []        # (endpoint name, virtual time, error_code, reason)
         self.expect_raise = False     # the next API call is a deliberate misuse (write after FIN / reset)
         self.misuse = collections.Counter()
 
@@ -69,8 +71,12 @@ class Oracle:
             if k not in self.reset:
                 self.bad("reset-unrequested", f"{k}: StreamReset delivered but the sender never reset the stream")
         elif n == "ConnectionTerminated":
+            self.terminations.append((ep.name, sim.now, int(ev.error_code), ev.reason_phrase))
             self.bad("terminated", f"{ep.name}: ConnectionTerminated error_code={ev.error_code} "
                                    f"frame_type={ev.frame_type} reason={ev.reason_phrase!r}")
+
+    def on_datagram_sent(self, sim, ep, d):
+        self.last_sent[ep.name] = sim.now
 
     def on_raise(self, sim, ep, name, args, exc):
         if self.expect_raise and isinstance(exc, (AssertionError, ValueError)):
@@ -441,6 +447,42 @@ DIRECTED = {"rebind-challenge-lost": directed_rebind_challenge_lost, "key-update
             "key-update-twice": directed_key_update_twice}
 
 
+STARVED_KINDS = ("terminated", "undelivered-bytes", "undelivered-fin")
+
+
+def rebind_starved(res):
+    """TRIGGER PREDICATE of the recorded finding C01-rebind-challenge-lost, evaluated on a failing run:
+    the run ended in idle timeouts only, and some endpoint E
+      * has as current network path (`_network_paths[0]`) a path that is NOT validated,
+      * whose anti-amplification budget cannot hold even the smallest 1-RTT packet
+        (`can_send(3 + len(dcid) + 1 + 16)` is false),
+      * while E still had something to send (bytes in flight, pending stream data / RESET, or a probe),
+      * and its peer sent nothing during the whole idle-timeout period before E gave up
+        (so nothing could raise E's budget)."""
+    s, orc = res.get("sim"), res["oracle"]
+    if s is None or not orc.terminations:
+        return False
+    if any(reason != "Idle timeout" for _, _, _, reason in orc.terminations):
+        return False
+    for ep in s.endpoints:
+        conn = ep.conn
+        if not conn._network_paths:
+            continue
+        path = conn._network_paths[0]
+        smallest = 3 + len(conn._peer_cid.cid) + 1 + 16
+        if path.is_validated or path.can_send(smallest):
+            continue
+        has_work = (conn._loss.bytes_in_flight > 0 or conn._probe_pending
+                    or any((not st.sender.buffer_is_empty) or st.sender.reset_pending for st in conn._streams.values()))
+        gave_up = [t for name, t, _, _ in orc.terminations if name == ep.name]
+        if not has_work or not gave_up:
+            continue
+        idle = conn._configuration.idle_timeout
+        if orc.last_sent.get(ep.peer.name, 0.0) <= gave_up[0] - idle + 1e-6:
+            return True
+    return False
+
+
 INIT_LINE = ("ok | S[empty=1 hi=0 fin=0 rp=0 next=0 start=0 stop=0 bfin=none pend=[] peof=0 acked=[] afin=0] "
              "R[hi=0 fin=0 start=0 fs=none rg=[] buflen=0 gone=0] sgone=0 wire=0 rwire=0 bytes=0 ends=0 resets=0")
 
@@ -528,12 +570,17 @@ def run_all(ctx, seeds, batch=25):
         nontrivial = "loss" in flags and any(l.startswith("dup") for l in log)
         ctx.count((cs, tuple(map(tuple, res["script"]))), nontrivial)
         seen = set()
+        starved = bool(orc.violations) and rebind_starved(res)
         for kind, text in orc.violations:
             if kind in seen:
                 continue
             seen.add(kind)
+            sig = {"oracle": kind}
+            if starved and kind in STARVED_KINDS:
+                sig = {"oracle": "terminated/undelivered", "cause": "rebind-starved"}
+                stats["cause:rebind-starved"] += 1
             ctx.witness(f"{kind}: {text}", {**describe(res), "all_violations": [f"{k}: {t}" for k, t in orc.violations][:10]},
-                        {"oracle": kind, "scenario": cs if cs in DIRECTED else "random"})
+                        sig)
             stats["violation:" + kind] += 1
         for p in tr.problems[:3]:
             ctx.broken.append({"kind": "broken-correspondence", "correspondence": "streamsys-derivation",
@@ -664,8 +711,12 @@ def replay(path):
         kinds = {k for k, _ in res["oracle"].violations}
         for k, t in res["oracle"].violations:
             print(f"VIOLATION-REPRODUCED {k}: {t}")
-        want = (d.get("signature") or {}).get("oracle")
-        print(f"recorded kind {want!r}: {'reproduced' if want in kinds else 'NOT reproduced on this tree'}")
+        sig = d.get("signature") or {}
+        want = sig.get("oracle")
+        cause = "rebind-starved" if res["oracle"].violations and rebind_starved(res) else None
+        print(f"trigger predicate: cause={cause!r} (recorded {sig.get('cause')!r})")
+        ok = (want in kinds) or (want == "terminated/undelivered" and kinds & set(STARVED_KINDS) and cause == sig.get("cause"))
+        print(f"recorded kind {want!r}: {'reproduced' if ok else 'NOT reproduced on this tree'}")
         print("script:", res["script"][:50])
         print("network log tail:", res["sim"].log[-40:] if "sim" in res else [])
         return 1 if res["oracle"].violations else 0
